@@ -8,7 +8,7 @@
 enum { S_WAIT_FOREVER, S_WAIT_TIMED, S_WAIT_NOW, S_SIGNAL, S_PAUSE, S_N };
 typedef struct sop { int idx, kind; uint64_t arg; } sop;
 static struct {
-	dispatch_semaphore_t sema; int v;
+	dispatch_semaphore_t sema; long v;
 	int nth; sop ops[MAXTH][MAXOPS]; int nops[MAXTH];
 	long signals_called, signals_returned, successes, timeouts;
 	int blocked_forever;        // threads currently inside a wait call (any kind)
@@ -22,9 +22,9 @@ static const char *const snames[S_N] = { "wait_forever", "wait_timed", "wait_now
 
 static void sema_after_success(int th, const char *how) {
 	S.successes++;
-	h_log("t%d %s -> 0 (successes %ld, v %d, signals called %ld)", th, how, S.successes, S.v, S.signals_called);
+	h_log("t%d %s -> 0 (successes %ld, v %ld, signals called %ld)", th, how, S.successes, S.v, S.signals_called);
 	if (S.successes > S.v + S.signals_called)
-		h_viol("spurious-success", "%ld waits have returned zero but only v=%d + %ld signals have started", S.successes, S.v, S.signals_called);
+		h_viol("spurious-success", "%ld waits have returned zero but only v=%ld + %ld signals have started", S.successes, S.v, S.signals_called);
 }
 static void *sema_thread(void *arg) {
 	int th = (int)(intptr_t)arg;
@@ -88,7 +88,10 @@ static bool sema_progress_pred(void *c) { long *want = c; return S.successes >= 
 
 static void c08_run(void) {
 	memset(&S, 0, sizeof S);
-	S.v = (int)g_n(4);
+	S.v = (long)g_n(4);
+	// an eighth of the runs: a value around the points where the count crosses a 32-bit boundary (the count is a long;
+	// nobody ever blocks then, every wait must return zero at once and the value must move by exactly one per call)
+	if (g_chance(1, 8)) { static const long big[] = { 0x7ffffffe, 0x80000000l, 0xfffffffel, 0x100000001l, 0x200000000l, 0x3fffffffffffffffl }; S.v = big[g_n(6)] + (long)g_n(3); }
 	S.nth = g_range(2, (RC.cfg & CFG_THOROUGH) ? 6 : 5);
 	int idx = 0;
 	static const uint64_t touts[] = { 1000, 20000, 100000, 500000, 2000000, 5000000 };
@@ -104,7 +107,7 @@ static void c08_run(void) {
 			op->arg = op->kind == S_PAUSE ? (uint64_t)g_range(1, 400) * USEC : touts[g_n(6)];
 		}
 	}
-	h_sample("semaphore v=%d\n", S.v);
+	h_sample("semaphore v=%ld\n", S.v);
 	for (int t = 0; t < S.nth; t++) {
 		h_sample("thread %d:", t);
 		for (int i = 0; i < S.nops[t]; i++) if (op_on(S.ops[t][i].idx)) {
@@ -126,7 +129,7 @@ static void c08_run(void) {
 		if (S.done == S.nth) break;
 		long avail = S.v + S.signals_returned - S.successes;
 		if (S.blocked_forever > 0 && avail > 0 && S.signals_in_flight == 0) {
-			char b[200]; snprintf(b, sizeof b, "%d thread(s) blocked in dispatch_semaphore_wait although %ld permit(s) are available (v=%d signals=%ld successes=%ld)",
+			char b[200]; snprintf(b, sizeof b, "%d thread(s) blocked in dispatch_semaphore_wait although %ld permit(s) are available (v=%ld signals=%ld successes=%ld)",
 				S.blocked_forever, avail, S.v, S.signals_returned, S.successes);
 			h_stuck("lost-signal", b);
 		}
@@ -142,10 +145,16 @@ static void c08_run(void) {
 	if (h_wait_until(sema_all_done, NULL, LIVENESS_NS)) h_stuck("liveness", "semaphore clients did not finish");
 	// conservation: exactly v + signals - successes permits remain obtainable
 	long expect = S.v + S.signals_returned - S.successes, got = 0;
+	if (expect > 100000) {
+		// too many to drain: a few polls must all succeed at once (every kind of wait on a count that large)
+		for (int k = 0; k < 6; k++) if (dispatch_semaphore_wait(S.sema, k & 1 ? DISPATCH_TIME_NOW : dispatch_time(DISPATCH_TIME_NOW, 1000000)) != 0)
+			h_viol("conservation", "a wait timed out although %ld permits are available (v=%ld)", expect - k, S.v);
+		got = expect;
+	} else
 	while (got <= expect + 2 && dispatch_semaphore_wait(S.sema, DISPATCH_TIME_NOW) == 0) got++;
 	h_log("drain: expect %ld got %ld", expect, got);
 	if (got != expect)
-		h_viol("conservation", "after all calls finished %ld permit(s) were obtainable, expected v + signals - successful waits = %d + %ld - %ld = %ld",
+		h_viol("conservation", "after all calls finished %ld permit(s) were obtainable, expected v + signals - successful waits = %ld + %ld - %ld = %ld",
 			got, S.v, S.signals_returned, S.successes, expect);
 	RES.counters[0] = S.signals_returned; RES.counters[1] = S.successes; RES.counters[2] = S.timeouts; RES.counters[3] = S.timeout_during_signal;
 	RES.nontrivial = S.timeouts > 0 && S.successes > 0 && (sim_st.watched_preempts > 0 || sim_st.fired[K_STALL] > 0);
